@@ -109,6 +109,25 @@ Proof. intros LB C b Hb. rewrite (cf_live _ _ C) in Hb. pose proof (LB b Hb). po
 Lemma clean_failure_str h h' b : live_below h -> clean_failure h h' -> b ∈ h_live h -> h_str h' !! b = h_str h !! b.
 Proof. intros LB C Hb. apply (cf_str _ _ C). by apply LB. Qed.
 
+(** the failure branch in one statement: every forest encoded before is encoded after, the
+    ledger of live library blocks is the same, node maps and the strings of live blocks are
+    bit-identical *)
+Lemma clean_failure_summary h h' F :
+  WF h F -> live_below h -> clean_failure h h' ->
+  WF h' F /\ lib_live h' = lib_live h /\ h_live h' = h_live h /\ h_lnk h' = h_lnk h /\ h_dat h' = h_dat h /\
+  (forall b, b ∈ h_live h -> h_str h' !! b = h_str h !! b) /\ live_below h' /\ (NoLeak h F -> NoLeak h' F).
+Proof.
+  intros W LB C. split_and!.
+  - by eapply clean_failure_WF.
+  - by apply clean_failure_lib_live.
+  - apply C.
+  - apply C.
+  - apply C.
+  - intros b Hb. by apply clean_failure_str.
+  - by eapply clean_failure_live_below.
+  - by apply clean_failure_NoLeak.
+Qed.
+
 Lemma refused_false h h' : ~ refused (fun _ => false) h h'.
 Proof. by intros (k & _ & ?). Qed.
 
